@@ -309,6 +309,43 @@ def run_config(scheme, label, field, vclass, cfg, acc, rng, deleted=None):
                                       f"{len(got)} ids instead of {len(shadow2[w])} without raising",
                                       {"scheme": scheme, "cfg": cfg, "mutation": label, "db": shadow2, "keyword": w})
                         return "wrong"
+        if n_ok and not n_raised and rng.random() < 0.3:
+            # "every search on the resulting index is correct" also after the same scheme object has built another
+            # index of a different size class (for PiPtr: on the other side of the 256-block boundary)
+            try:
+                isz = cfg.get("param_identifier_size", 8) if isinstance(cfg.get("param_identifier_size", 8), int) else 8
+                nb = 300 if scheme == "CJJ14.PiPtr" and sum(len(v) for v in shadow.values()) < 200 else 3
+                per = cfg.get("param_B", 1) if scheme == "CJJ14.PiPtr" and isinstance(cfg.get("param_B"), int) else 1
+                other_db = {b"zz-other-%d" % j: [(j * 7919 + i + 1).to_bytes(isz, "big") for i in range(max(1, per))]
+                            for j in range(nb)} if isz >= 3 else None
+                if other_db is not None:
+                    kx = st.sse.KeyGen()
+                    edbx = st.sse.EDBSetup(kx, copy.deepcopy(other_db))
+                    acc.count("second_index_on_the_same_object")
+                    probes = [(st.edb, st.key, w, shadow[w]) for w in list(shadow)[:6]]
+                    if rng.random() < 0.5:
+                        # ... and a third setup (the first database again), then the SECOND index is searched
+                        st.sse.EDBSetup(st.key, copy.deepcopy(shadow))
+                        probes = [(edbx, kx, w, other_db[w]) for w in list(other_db)[:8]]
+                    for (edb_p, key_p, w, want_p) in probes:
+                        try:
+                            got = st.sse.Search(edb_p, st.sse.TokenGen(key_p, w)).get_result_list()
+                        except CaseTimeout:
+                            raise
+                        except Exception:
+                            continue
+                        if not sse.result_matches(scheme, got, want_p):
+                            acc.add("outcomes", f"{key_out}|WRONG")
+                            acc.violation(f"{short}:silent-wrong-result:after-another-setup",
+                                          f"{scheme} with {label}: the same scheme object built a small and a "
+                                          f"{nb}-keyword index in turn; a search on the index that was not built last "
+                                          f"returned {len(got)} ids instead of {len(want_p)} without raising",
+                                          dict(case, keyword=w, other_index_keywords=nb))
+                            return "wrong"
+            except CaseTimeout:
+                raise
+            except Exception:
+                pass    # a loud failure of the second setup or of a search is not what this property forbids
         acc.add("outcomes", f"{key_out}|{'correct' if n_ok and not n_raised else 'search-raised' if not n_ok else 'correct+search-raised'}")
         if n_ok:
             acc.count("outcome.config-correct")
